@@ -36,6 +36,7 @@ type Op struct {
 	Kind   string // req | adv
 	Key    string `json:",omitempty"`
 	Limit  int    `json:",omitempty"` // value MaxFunc returns for this request
+	Pre201 bool   `json:",omitempty"` // with ViaErr: the handler sets status 201 before it returns the error
 	ViaErr bool   `json:",omitempty"` // a failing handler returns fiber.NewError(status) instead of writing the status itself
 	Status int    `json:",omitempty"` // status the protected handler answers
 	Dt     int    `json:",omitempty"` // adv: seconds
@@ -90,6 +91,9 @@ func newLimiter(c Case, st *vk.Storage, onHandler func(fiber.Ctx)) *fiber.App {
 			st = 200
 		}
 		if st >= 400 && ctx.Query("viaerr") == "1" {
+			if ctx.Query("pre") == "1" {
+				ctx.Status(fiber.StatusCreated) // the handler had got as far as setting its success status when it failed
+			}
 			return fiber.NewError(st, "failed") // the idiomatic way to fail: the ErrorHandler writes the status later
 		}
 		return ctx.SendStatus(st)
@@ -210,7 +214,11 @@ func check(c Case) vk.Verdict {
 		if op.ViaErr {
 			viaErr = 1
 		}
-		r := do(fmt.Sprintf("/?k=%s&st=%d&lim=%d&slow=%d&viaerr=%d", op.Key, op.Status, limit, op.Slow, viaErr))
+		pre := 0
+		if op.Pre201 {
+			pre = 1
+		}
+		r := do(fmt.Sprintf("/?k=%s&st=%d&lim=%d&slow=%d&viaerr=%d&pre=%d", op.Key, op.Status, limit, op.Slow, viaErr, pre))
 		ran := admitted > before
 		retryNow := now // (a slow handler moved the clock meanwhile; everything below is judged at the time of arrival, and a
 		// give-back belongs to the window the hit was counted in - the model rolls its window lazily at the next request)
@@ -310,7 +318,7 @@ func genCase(t *rapid.T) Case {
 			c.Ops = append(c.Ops, Op{Kind: "adv", Dt: rapid.IntRange(0, 2*c.Exp).Draw(t, "dt")})
 			continue
 		}
-		o := Op{Kind: "req", Key: rapid.SampledFrom([]string{"a", "b", "c"}[:nkeys]).Draw(t, "k"), Status: rapid.SampledFrom([]int{200, 200, 500, 404}).Draw(t, "st"), Limit: constLimit, ViaErr: rapid.Bool().Draw(t, "viaerr")}
+		o := Op{Kind: "req", Key: rapid.SampledFrom([]string{"a", "b", "c"}[:nkeys]).Draw(t, "k"), Status: rapid.SampledFrom([]int{200, 200, 500, 404}).Draw(t, "st"), Limit: constLimit, ViaErr: rapid.Bool().Draw(t, "viaerr"), Pre201: rapid.IntRange(0, 2).Draw(t, "pre201") == 0}
 		if !c.SubSec && rapid.IntRange(0, 7).Draw(t, "slow") == 0 {
 			o.Slow = rapid.IntRange(1, 2*c.Exp).Draw(t, "slowsecs")
 		}
